@@ -727,6 +727,12 @@ def correspondence(ctx):
                     ctx.hist['trace:outside-domain'] += 1     # the ray leaves the part of a later surface the generator aims at
                     continue
                 bad = check_physics(specs, mats, ph, sh, n0)
+                ctx.hist['trace:checked'] += 1
+                ctx.hist[f'trace:checked/{k}surf'] += 1
+                if tags[i] == 'nearcrit':
+                    ctx.hist['trace:checked/nearcrit'] += 1
+                if any(sp['kind'] in ('refr', 'refract') and (np.asarray(h['Sloc']) @ np.asarray(h['r'])) < 0 for sp, h in zip(specs, model)):
+                    ctx.hist['trace:checked/refraction-against-the-normal'] += 1
                 for b in bad[:1]:
                     ctx.pred_fail('trace', case, b)
                 for j in range(k):
@@ -843,6 +849,20 @@ def correspondence(ctx):
                 ctx.pred_fail('frames', case, 'local/global frame change is not an exact rigid motion')
 
     _qtype_stream(ctx)
+    _floors(ctx)
+
+
+def _floors(ctx):
+    """a run must not hollow out silently: skipped / out-of-scope cases are counted, and too few executed ones is a TOOL error"""
+    h = ctx.hist
+    ntr = ctx.items.get('trace', 0)
+    need = {'trace:checked': 0.7 * ntr, 'trace:checked/1surf': 0.3 * ntr, 'trace:checked/2surf': 0.03 * ntr,
+            'trace:checked/3surf': 0.1 * ntr, 'trace:checked/nearcrit': 3, 'trace:checked/refraction-against-the-normal': 0.02 * ntr,
+            'refract:near-critical-sloped': 100, 'off_axis_polar:dx': 30, 'off_axis_polar:dy': 30,
+            'qtype_trace:refl/dx': 10, 'qtype_trace:refr/dx': 10, 'qtype_trace:refl/dy': 10, 'qtype_trace:refr/dy': 10}
+    low = {k: (h.get(k, 0), int(v)) for k, v in need.items() if h.get(k, 0) < v}
+    if low:
+        raise C.ToolError(f'C19 correspondence executed too few cases (got, floor): {low}')
 
 
 def _qtype_stream(ctx):
